@@ -308,7 +308,8 @@ func (l *Lib) classifyLambda(lam b6.LambdaExpression) string {
 		}
 	}
 	arity, variadic, known := l.headArity(call.Function)
-	if known && variadic && len(call.Args)-i >= arity-1 {
+	if known && variadic {
+		// `f rest..` (or a later partial application of f itself) is a complete call of a variadic function
 		return "eta:variadic-function-becomes-a-full-call"
 	}
 	if known && !variadic && arity < len(call.Args) {
